@@ -6,11 +6,13 @@ import math
 import operator
 from fractions import Fraction as F
 
+import numpy as np
+
 import pymbolic.primitives as p
 
 from ..core import check, short
 from ..gen import expr as G
-from ..gen import scale
+from ..gen import numbers, scale
 from ..ref import normal, refsem
 
 RULE = ("operator programs = trees over + - * / // % ** << >> & | ^, unary - + ~, call, subscript, "
@@ -660,6 +662,121 @@ def rand_prog(rng, d, need_expr=True):
     return ("attr", rng.choice(["attr", "a"]), rng.choice(G.ATTR_NAMES))
 
 
+def _exactly(a, b):
+    """the same number: exact comparison whenever an exact kind (int, bool, Fraction) is on
+    either side -- 10**18 + 49 is not 1.000000000000000049e18 --, floats with float tolerance"""
+    import numpy as np
+    fl = (float, complex, np.floating, np.complexfloating)
+    try:
+        if isinstance(a, fl) and isinstance(b, fl):
+            return refsem.values_equal(a, b)
+        if a != a and b != b:
+            return True
+        return bool(a == b)
+    except Exception:  # noqa: BLE001
+        return False
+
+
+@check("C03.kinds")
+def c_kinds(ctx, case):
+    """One operator, an expression on one side and a constant of some KIND on the other
+    (integer-valued floats, negative zero, bools, huge ints, extreme floats, complex), evaluated
+    where the variable holds a value of every kind (numpy scalars that wrap around or round,
+    ints no double holds, Fractions, infinities, NaN): exactly the plain computation."""
+    op, c, side, nested = case
+    import warnings
+    f = BIN[op]
+    # the plain computation, with the reference's refusal of astronomically large results
+    g = {"**": refsem._pow, "<<": refsem._lshift}.get(op, f)
+    cx = F(c) if isinstance(c, float) and math.isfinite(c) else F(int(c)) if isinstance(c, int) else c
+    inner = p.Sum((X, 0)) if nested else X      # a composite operand (one-child-like sum)
+
+    def build():
+        return f(inner, c) if side == "left" else f(c, inner)
+    try:
+        tree = build()
+    except RecursionError:
+        raise
+    except Exception as ex:  # noqa: BLE001
+        tree, built_err = None, type(ex).__name__
+    for k in numbers.KINDS:
+        if k == "np.uint8":
+            continue    # a - b is REPRESENTED as a + (-1)*b: unsigned fixed-width values cannot
+            #             be negated (OverflowError in numpy 2) -- outside the representable fragment
+        for xv in numbers.KINDS[k][:3]:
+            env = {"x": xv, "y": 1}
+            with warnings.catch_warnings():
+                warnings.simplefilter("ignore")
+                try:
+                    want = refsem.outcome(lambda: g(xv + 0 if nested else xv, c) if side == "left"
+                                          else g(c, xv + 0 if nested else xv))
+                except refsem.TooCostly:
+                    ctx.count("kind_evaluations_too_costly")
+                    continue
+                if tree is None:
+                    if isinstance(c, bool):
+                        continue    # (bools are not accepted as arithmetic operands: C03.program)
+                    if want[0] == "v":
+                        ctx.fail("C03.kinds", case, f"refused:{op}:{numbers.kind_of(c)}",
+                                 f"x {op} {c!r} ({side}) could not be built ({built_err}) although "
+                                 f"{xv!r} {op} {c!r} is defined")
+                        return
+                    continue
+                try:
+                    got = refsem.outcome(lambda: refsem.ev(tree, env))
+                except refsem.TooCostly:
+                    continue
+            ctx.case(None)
+            ctx.count("kind_evaluations")
+            if want[0] != "v":
+                continue            # the statement is about environments where the plain
+                #                     computation is defined (0 / x at x == 0 is not)
+            try:
+                if want[1] != want[1] or (c == 0 and not np.isfinite(complex(xv))):
+                    # 0 * inf, 0.0 / False in numpy: IEEE makes these NaN; the x*0 and 0/x
+                    # folds of the statement are about numbers
+                    ctx.count("kind_nonfinite_fold_skipped")
+                    continue
+            except Exception:  # noqa: BLE001
+                pass
+            if got[0] == "v" and not _exactly(got[1], want[1]) \
+                    and (isinstance(c, float) or (op == "/" and isinstance(c, int))) \
+                    and not isinstance(xv, (float, complex, np.floating, np.complexfloating)):
+                # a float constant makes the plain result a rounded float; a dropped neutral
+                # 0.0 / 1.0 (or x**1.0) leaves the tree exact: accepted if the tree gives the
+                # SAME computation on exact rationals (as in C03.program)
+                try:
+                    xq = F(int(xv)) if isinstance(xv, (int, np.integer)) and not isinstance(xv, bool) \
+                        and op == "/" else xv
+                    wx = g(xq, cx) if side == "left" else g(cx, xq)
+                    if _exactly(got[1], wx) and refsem.values_equal(float(wx), want[1]):
+                        ctx.count("kind_agreed_with_exact_rational_computation")
+                        continue
+                except Exception:  # noqa: BLE001
+                    pass
+            if got[0] != "v" or not _exactly(got[1], want[1]):
+                ctx.fail("C03.kinds", case, f"value:{op}:{side}:{numbers.kind_of(c)}",
+                         f"x {op} {c!r} built ({side}) as {tree}; at x={xv!r} "
+                         f"[{numbers.kind_of(xv)}] the tree evaluates to {short(got)}, the plain "
+                         f"computation gives {want[1]!r} [{numbers.kind_of(want[1])}]",
+                         finding=_kinds_finding(op, c, side, xv, want))
+
+
+def _kinds_finding(op, c, side, xv, want):
+    """the three recorded construction-time shortcuts, by their site: x // 1 and x % 1 with a
+    non-integral x, 0 ** x at x == 0"""
+    try:
+        if side == "left" and op == "//" and c == 1:       # (True == 1: x // True is folded too)
+            return KF_FLOORDIV1
+        if side == "left" and op == "%" and c == 1:
+            return KF_MOD1
+        if side == "right" and op == "**" and c == 0:
+            return KF_ZEROPOW
+    except Exception:  # noqa: BLE001
+        pass
+    return None
+
+
 @check("C03.smart")
 def c_smart(ctx, case):
     """The construction helpers that stand for repeated operator application -- the builtin
@@ -721,6 +838,21 @@ def c_smart(ctx, case):
 def workload(ctx):
     rng = ctx.rng
     nenv = ctx.pick(40, 81)
+    # kinds of numbers: every operator x every constant kind x both sides x every value kind
+    consts = [2.0, -2.0, 1.0, -1.0, 0.0, -0.0, 40.0, 0.5, True, False, 2, -3, 2**53 + 1, 10**9 + 7,
+              1e308, 5e-324, float("inf"), 1j, 2 + 0j, 3, 1, 0, -1]
+    for op in BIN:
+        for c in consts:
+            for side in ("left", "right"):
+                if isinstance(c, complex) and op in ("//", "%", "<<", ">>", "&", "|", "^"):
+                    continue
+                if not ctx.mine("kinds"):
+                    continue
+                ctx.case(("kinds", op, repr(c), side), True, n=0)
+                ctx.run("C03.kinds", (op, c, side, False))
+                if op in ("**", "/", "//", "%", "*"):
+                    ctx.run("C03.kinds", (op, c, side, True))
+    ctx.set_exhaustive("(operator, constant kind, side) with the variable over 19 value kinds")
     # scale: construction helpers and operator chains over 1 .. 130 operands
     for n in [1, 2, 3, 5, 8, *scale.WIDTHS]:
         for kind in ("linear_combination", "sum()", "flattened_sum", "flattened_product",
@@ -830,6 +962,7 @@ def workload(ctx):
             ctx.sample("random-program", show(prog))
         ctx.run("C03.program", (prog, ctx.pick(12, 30)))
     ctx.floor("exhaustive_triples", 12 * 200)
+    ctx.floor("kind_evaluations", 10000)
     ctx.floor("smart_constructor_values", 500)
     ctx.floor("long_operator_chains", 100)
     ctx.floor("exhaustive_outer_of_triples", 3000)
